@@ -346,8 +346,12 @@ JudgeArc(s0, cfg, e) ==
              fetB == IsHit(r) /\ dreq = 1 /\ dok = 1 /\ ~MustHit(s0.sr, cc, k)
              netD == IsErr(r, "network") /\ dreq = 1 /\ dfail = 1 /\ ~MustHit(s0.sr, cc, k)
              full == Known("FX04m") /\ IsErr(r, "full") /\ dreq = 1 /\ dok = 1 /\ ~MustHit(s0.sr, cc, k)
+             \* a fetched range MAY have been stored (soft: a later miss is fine, a later hit must be these bytes);
+             \* it is listed unless the list was full (then the fetched bytes were returned without being stored)
+             mdA  == Dflt(s0.md, e.a, <<>>)
              s1   == IF IsHit(r) /\ dreq = 1
-                     THEN [s0 EXCEPT !.sr = SoftPut(@, k, r.h, r.n, DC(cfg)), !.md = FnWith(@, e.a, AsIsListed(Dflt(s0.md, e.a, <<>>), u))]
+                     THEN [s0 EXCEPT !.sr = SoftPut(@, k, r.h, r.n, DC(cfg)),
+                                     !.md = IF AsIsFull(mdA, u, cfg.maxr) THEN @ ELSE FnWith(@, e.a, AsIsListed(mdA, u))]
                      ELSE s0
          IN Out(s1, {IF hitA \/ fetB \/ netD THEN "ok" ELSE IF full THEN "FX04m" ELSE "bad"})
       [] e.op = "meta" ->
@@ -473,14 +477,14 @@ JudgeRes(s0, cfg, e) ==
                    ELSE [s0 EXCEPT !.asroot = PutR(@, e.r, Backend, 0, "long"),
                                    !.sroot = IF valid /\ "miss" \in O THEN PutR(@, e.r, Backend, 0, "long") ELSE @,
                                    !.poison = IF valid THEN @ ELSE @ \cup {e.r}]
-         IN Out(s1, {One(m.tot - p.tot \in {1, 2}),
+         IN Out(s1, {One(m.tot - p.tot \in {0, 1, 2}),
                      IF idealNoFetch \/ idealFetch THEN "ok"
                      ELSE IF Known("FX04n") /\ asisRefetch THEN "FX04n"
                      ELSE IF Known("FX04l") /\ asisNoFetch THEN "FX04l"
                      ELSE "bad"})
-      [] e.op = "fcfg" ->      \* CdnClient::fetch_config: one request, data or a reported error, never a panic
+      [] e.op = "fcfg" ->      \* CdnClient::fetch_config: data from one request, or a reported error; never a panic
          IF IsPanic(r) THEN Out(s0, {IF Known("FX04i") /\ Len(e.h) < 4 THEN "FX04i" ELSE "bad"})
-         ELSE Out(s0, {One(m = p /\ dreq = 1 /\ ((IsHit(r) /\ dok = 1) \/ (IsErr(r, "network") /\ dfail = 1)))})
+         ELSE Out(s0, {One(m = p /\ ((IsHit(r) /\ dreq = 1 /\ dok = 1) \/ (Has2(r, "err") /\ dok = 0 /\ dfail = dreq)))})
       [] OTHER -> Out(s0, {"bad"})
   IN Out([x.st EXCEPT !.prm = e.rm, !.pcm = e.cm], x.cls \cup base)
 
